@@ -47,7 +47,7 @@ CHECKS["C16"] = dict(
     note="Assumed: builtin list/set semantics, the += / |= desugaring, weakref; the inferences triggered by a recorded relation are C15's subject.",
 )
 CHECKS["C14"] = dict(
-    category="proof",
+    category="other",
     technique="contract-based deductive verification: representation invariant of SymbolGraph preserved by every operation (real ast, ghost state as z3 functions over uninterpreted sorts, loop invariants), induction over histories",
     text="add_node, remove_node (incl. its two purge loops, by inductive invariants), add_relation, relation_exists, get/ensure_wrapped_instance, "
          "WrappedInstance/PredicateClassRelation construction are proved to preserve the representation invariant WF (I1 graph payloads, I2 id index, "
@@ -254,7 +254,10 @@ _ADD = {
     "C12": " 'Variable argument' ranges over every subclass of CanBehaveLikeAVariable; class-level containers of the expression classes are of unknown "
            "content when a predicate use starts (failures that depend on that over-approximation need a native witness).",
     "C13": " A live instance's truth value is arbitrary in the graph model (user classes may define __len__ / __bool__).",
-    "C14": " A live instance's truth value is arbitrary in the graph model (user classes may define __len__ / __bool__).",
+    "C14": " A live instance's truth value is arbitrary in the graph model (user classes may define __len__ / __bool__). Level 'other': the registry "
+           "operations are proved from any well-formed state, but that the inferences a new relation triggers (C15's rules, which walk neighbouring "
+           "edges) are unaffected by edges of dead, not yet swept instances is carried by one obligation on the transitive rule's neighbour selection "
+           "and otherwise by the garbage-prefix driver (a defect of exactly that kind was found and repaired).",
     "C15": " C16's assertion contracts (every value written into a managed field reaches add_relation_to_the_graph once) are re-checked under C15; "
            "the transitive rule composes with asserted and inferred edges of the same descriptor class.",
     "C16": " Owners and elements are instances of classes with a __len__ of symbolic size (possibly falsy).",
